@@ -66,6 +66,12 @@ impl Array {
     #[verifier::external_body]
     pub fn push_one(&mut self, v: Val) ensures final(self).arr@ == old(self).arr@.push(v), final(self).dict@ == old(self).dict@ { unimplemented!() }
 }
+/// an `impl Iterator<Item = Val>` handed to push: only the sequence of values it yields matters
+#[verifier::external_body] pub struct ValIter { _p: u8 }
+impl ValIter { pub uninterp spec fn items(&self) -> Seq<Val>; }
+/// `VecDeque::extend(iter)`: appends the yielded values at the back, in order
+#[verifier::external_body]
+pub fn deque_extend(v: &mut VecDeque<Val>, it: ValIter) ensures final(v)@ == old(v)@ + it.items() { unimplemented!() }
 /// `s.chars().nth(i)`
 #[verifier::external_body]
 pub fn str_nth(s: &str, i: usize) -> (r: Option<char>) ensures r == (if i < s@.len() { Some(s@[i as int]) } else { None }) { unimplemented!() }
